@@ -229,3 +229,35 @@ func TestReplay(t *testing.T) {
 		fmt.Printf("REPLAY-NOT-REPRODUCED recorded=%s.%s got=[%s]\n", rf.Property, rf.Rule, strings.Join(vs, ","))
 	}
 }
+
+// TestMinimise shrinks the replay file SIM_REPLAY (program and schedule) and writes the result
+// to SIM_MIN_OUT; the unminimised file is left alone when nothing smaller reproduces.
+func TestMinimise(t *testing.T) {
+	path := os.Getenv("SIM_REPLAY")
+	outPath := os.Getenv("SIM_MIN_OUT")
+	if path == "" || outPath == "" {
+		t.Skip("SIM_REPLAY / SIM_MIN_OUT not set")
+	}
+	b, err := os.ReadFile(path)
+	if err != nil {
+		t.Fatal(err)
+	}
+	var rf ReplayFile
+	if err := json.Unmarshal(b, &rf); err != nil {
+		t.Fatal(err)
+	}
+	go func() { // wall-clock watchdog, outside any bubble
+		time.Sleep(time.Duration(envInt("SIM_MIN_BUDGET_S", 60)+120) * time.Second)
+		fmt.Println("WATCHDOG minimiser exceeded its wall-clock limit")
+		os.Exit(3)
+	}()
+	rep, ok := Minimise(t, &rf, time.Duration(envInt("SIM_MIN_BUDGET_S", 60))*time.Second)
+	js, _ := json.Marshal(rep)
+	fmt.Println("MINIMISE", ok, string(js))
+	if ok {
+		out, _ := json.MarshalIndent(&rf, "", " ")
+		if err := os.WriteFile(outPath, out, 0o644); err != nil {
+			t.Fatal(err)
+		}
+	}
+}
